@@ -39,6 +39,8 @@ CONSTRUCT = {
     'funcdef': 'def g():\n    "doc"\n    return 1', 'decorated': '@dec(x=1)\nclass K:\n    @prop\n    def m(self): yield 1',
     'forelse': 'for {T} in it:\n    break\nelse:\n    raise E', 'withmulti': 'with a as {T}, b as t9:\n    pass',
     'trystar': 'try:\n    pass\nexcept* E as err:\n    pass',
+    'importmulti': 'import os as o, sys', 'importmulti2': 'import a.b as c, d.e, f as g, h',
+    'frommulti': 'from m import (a as b, c, d as e, f)', 'importmulti3': 'import p.q, r as s, t.u.v',
 }
 CONTEXT = {'module': '{B}', 'def': 'def outer(q):\n{I}', 'class': 'class Outer:\n{I}', 'asyncdef': 'async def outer(q):\n{I}',
            'nesteddef': 'def o1():\n    def o2():\n{II}\n    return o2', 'method': 'class Outer:\n    def meth(self):\n{II}'}
